@@ -273,6 +273,17 @@ impl<T> RcInner<T> {
 impl<T: RcObject> RcInner<T> {
     #[inline]
     pub(crate) unsafe fn decrement_strong(ptr: *mut Self, count: u32, guard: Option<&Guard>) {
+        // Enter the critical section *before* reading the epoch that gets stamped on the
+        // counter: an unpinned thread can be delayed for arbitrarily many epochs between the read
+        // and the CAS below, and would then overwrite a fresh stamp with an arbitrarily old one.
+        let pinned;
+        let guard = match guard {
+            Some(guard) => guard,
+            None => {
+                pinned = cs();
+                &pinned
+            }
+        };
         let epoch = global_epoch();
         // Should mark the current epoch on the strong count with CAS.
         let hit_zero = loop {
@@ -292,19 +303,11 @@ impl<T: RcObject> RcInner<T> {
             }
         };
 
-        let trigger_recl = |guard: &Guard| {
-            if hit_zero {
-                guard.defer_with_inner(ptr, |inner| Self::try_destruct(inner));
-            }
-            // Periodically triggers a collection.
-            guard.incr_manual_collection();
-        };
-
-        if let Some(guard) = guard {
-            trigger_recl(guard)
-        } else {
-            trigger_recl(&cs())
+        if hit_zero {
+            guard.defer_with_inner(ptr, |inner| Self::try_destruct(inner));
         }
+        // Periodically triggers a collection.
+        guard.incr_manual_collection();
     }
 
     #[inline]
